@@ -36,13 +36,12 @@ FAMILY_RULES = {
     "conv": ["fuse_batchnorm_into_conv_rule", "fuse_batchnorm_into_gemm_rule", "affine_conv_fusion_rule", "conv_affine_fusion_rule",
              "fuse_pad_into_conv_rule", "normalize_pad_format_conv_rule", "remove_optional_bias_from_conv_rule"],
     "scatter": ["no_op_static_scatter_nd_rule", "no_op_dynamic_scatter_nd_rule"],
+    "conv_integer": ["fuse_pad_into_conv_integer_rule", "normalize_pad_format_conv_integer_rule"],
 }
 NOT_ENCODED_RULES = {
     "fuse_batchnorm_into_conv_transpose_rule": "ConvTranspose not encoded",
     "remove_optional_bias_from_conv_transpose_rule": "ConvTranspose not encoded",
     "remove_optional_bias_from_qlinear_conv_rule": "QLinearConv not encoded",
-    "fuse_pad_into_conv_integer_rule": "ConvInteger not encoded",
-    "normalize_pad_format_conv_integer_rule": "ConvInteger not encoded",
 }
 
 
@@ -129,8 +128,19 @@ def main(tier: str, only=None) -> int:
                     d[rec["verdict"]] += 1
     exported = list(RC.__all__)
     never = [r for r in exported if r not in NOT_ENCODED_RULES and fired.get(r, {}).get("fired", 0) == 0]
+    # dropout_inference_rule is written against an ATTRIBUTE `training_mode`; decided from the installed schemas at every run:
+    # if no version of Dropout declares such an attribute, no checker-valid model contains an instance and the rule is vacuous
+    unreachable = {}
+    if "dropout_inference_rule" in never:
+        vers = [sch for sch in onnx.defs.get_all_schemas_with_history() if sch.name == "Dropout" and sch.domain == ""]
+        if vers and all("training_mode" not in sch.attributes for sch in vers):
+            unreachable["dropout_inference_rule"] = (f"pattern needs a Dropout attribute 'training_mode'; none of the {len(vers)} schema versions "
+                                                     f"({sorted(sch.since_version for sch in vers)}) declares it: no valid model has an instance")
     for r in never:
+        if r in unreachable:
+            continue
         run.note_inconclusive(f"rule {r} never fired on its hosts: nothing decided for it in this run")
+    run.coverage["rules_vacuous_on_valid_models"] = unreachable
     run.coverage.update({
         "programs": len(results), "disagreements_checked": counts.get("cex", 0), "samples": samples,
         "host_rule_pairs": n_pairs, "evaluations": n_pairs, "distinct_nontrivial": sum(v["fired"] for v in fired.values()),
